@@ -10,8 +10,9 @@
 //     typedef chains.
 //
 // The generated-code half of the property (descriptors embedded in
-// *-reflection.go) is a separate test; it can reuse expectedFileDescriptor,
-// contentOf and judgeContent.
+// *-reflection.go, obtained at run time from the compiled packages) is
+// TestGenerated in gen_test.go; it reuses expectedFileDescriptor, contentOf and
+// judgeContent.
 package c15
 
 import (
@@ -27,13 +28,17 @@ import (
 	tr "github.com/cloudwego/thriftgo/thrift_reflection"
 	"pgregory.net/rapid"
 
+	"verif/internal/drv"
 	"verif/internal/idl"
 	"verif/internal/vt"
 )
 
 const prop = "C15"
 
-func TestMain(m *testing.M) { vt.Main(m) }
+func TestMain(m *testing.M) {
+	vt.AtExit(drv.CloseAll) // driver sessions of the generated-code half (gen_test.go)
+	vt.Main(m)
+}
 
 // ---------- case ----------
 
@@ -950,5 +955,6 @@ func TestReplay(t *testing.T) {
 			}
 			return judgeCodecCase(c)
 		},
+		"generated": replayGenerated, // gen_test.go
 	})
 }
